@@ -31,18 +31,19 @@ Proof. exact roundtrip_main. Qed.
 
 (** The length jj chooses ([max existing marker length + increment], at least the minimum;
     constants from the source) dominates every line of the inputs, hence every hunk term
-    that is a line-aligned slice of an input (all terms of a line-level merge). Uses
+    whose lines are lines of the inputs ([LinesOf]: all terms of a line-level merge, conflict
+    terms being line-aligned slices and resolved hunks concatenations of such slices). Uses
     [CONFLICT_MARKER_LEN_INCREMENT >= 2] and [MIN_CONFLICT_MARKER_LEN >= 2]. *)
 Theorem C05_marker_len_dominates :
   forall (files : list (list N)) (hs : list (list (list N))),
-    SlicesOf files hs -> Dominated (choose_marker_len files) hs.
+    LinesOf files hs -> Dominated (choose_marker_len files) hs.
 Proof. exact chooser_dominates. Qed.
 
 (** The composition jj performs: chosen length, detected EOL. *)
 Theorem C05_roundtrip_chosen :
   forall (D : list N -> list N -> list dhunk) (n : nat) (st : style) (labels : list (list N))
          (files : list (list N)) (hs : list (list (list N))),
-    DiffOk D -> LabelsOk labels -> WfHunks n hs -> SlicesOf files hs ->
+    DiffOk D -> LabelsOk labels -> WfHunks n hs -> LinesOf files hs ->
     parse_conflict
       (materialize_conflict_hunks D (detect_eol files) (choose_marker_len files) hs st labels)
       n (choose_marker_len files) = Some hs.
@@ -75,10 +76,10 @@ Theorem C05_case_sound :
     parse_conflict (model_out c) (files_sides c) (case_len c) = Some hs.
 Proof. exact case_sound. Qed.
 
-Theorem C05_slices_checker_sound :
+Theorem C05_lines_checker_sound :
   forall (files : list (list N)) (hs : list (list (list N))),
-    forallb (forallb (aligned_sliceb files)) hs = true -> SlicesOf files hs.
-Proof. exact slices_b_sound. Qed.
+    forallb (forallb (lines_ofb files)) hs = true -> LinesOf files hs.
+Proof. exact lines_of_b_sound. Qed.
 
 (** Meaning of the property checker evaluated on the implementation's outputs. *)
 Theorem C05_okb_spec :
@@ -98,7 +99,7 @@ Check C05_roundtrip :
     parse_conflict (materialize_conflict_hunks D eol L hs st labels) n L = Some hs.
 Check C05_marker_len_dominates :
   forall (files : list (list N)) (hs : list (list (list N))),
-    SlicesOf files hs -> Dominated (choose_marker_len files) hs.
+    LinesOf files hs -> Dominated (choose_marker_len files) hs.
 
 (** Non-vacuity: a three-sided conflict after a resolved hunk, with an unterminated term, an
     empty term, a marker look-alike of length 7 and CR bytes, satisfies the hypotheses for
@@ -133,7 +134,7 @@ Qed.
 (** Finding (word-level merges): with [merge.hunk-level = "word"] a resolved hunk can contain
     lines that are in no input, so the chosen length does not dominate them. Witness: the
     three inputs below, whose word-level merge (replayed on the implementation by the
-    harness pool "word-synthesized-markers") is [wl_hs]; all conflict terms are slices of
+    harness pool "word-synthesized-markers") is [wl_hs]; all conflict terms consist of lines of
     the inputs, the shape hypotheses hold, but the text parses to different hunks. *)
 Definition wl_files : list (list N) :=
   [ hex "3c3c3c3c3c3c3c620a78300a7c7c7c7c7c7c7c620a78310a3d3d3d3d3d3d3d620a78320a3e3e3e3e3e3e3e620a78330a7365700a700a";
@@ -145,7 +146,7 @@ Definition wl_hs : list (list (list N)) :=
 
 Lemma C05_word_level_refuted :
   wf_hunksb 2 wl_hs = true /\
-  forallb (fun h => is_resolved h || forallb (aligned_sliceb wl_files) h) wl_hs = true /\
+  forallb (fun h => is_resolved h || forallb (lines_ofb wl_files) h) wl_hs = true /\
   hunks_dominatedb (choose_marker_len wl_files) wl_hs = false /\
   forall st,
     parse_conflict
